@@ -567,6 +567,7 @@ pub fn generated_router() -> Router {
 /// installs it) a handler that needs longer than the deadline is answered RequestTimeout at the
 /// deadline and is dropped - for every generated method, with a configured default and with a
 /// deadline in the request's header.
+#[cfg(feature = "direct")]
 pub fn deadline(_a: &Args) -> i32 {
     use tower::ServiceExt;
     let imp = CancelImpl::default();
